@@ -101,7 +101,48 @@ HELPERS = """
 
 
 def fixed_cases(tier):
-    return [{"small_scope": 3 if tier == "thorough" else 2}]
+    return [{"small_scope": 3 if tier == "thorough" else 2}, {"param_matrix": 1}]
+
+
+def run_param_matrix(case):
+    """Every function-like feature x name kind (plain, leading underscore, double underscore, a prelude method's name)
+    x every visibility, and every combination of given / defaulted struct names: the ascriptions must still compile."""
+    from . import common as C
+    out = J.Outcome()
+    items, descr = [], []
+    shapes = [C.scope_spec("u8", [0, 1, 2, 3]), C.scope_spec("i16", [-3, -2, 4, 9])]
+    for spec in shapes:
+        for f in E.FN_FEATURES:
+            for nm in (None, "f_%s" % f.lower(), "_%s" % f.lower(), "__%s" % f.lower(), "__raw", "clone"):
+                for vis in (None, "", "pub(crate)", "pub"):
+                    ps = ([["name", nm]] if nm is not None else []) + ([["vis", vis]] if vis is not None else [])
+                    feats = [{"f": f, "params": ps}]
+                    if f == "range":
+                        feats.append({"f": "iter", "params": []})
+                    cfg = {"feats": feats, "groups": [len(feats)], "pos": ["pre"]}
+                    descr.append(cfg)
+        for isn in (None, "XIter", "MyIter", "ENames", "QNames"):
+            for nsn in (None, "XNames", "MyNames", "EIter", "QIter"):
+                if (isn or "EIter") == (nsn or "ENames"):
+                    continue            # the user named both structs alike: not a legal configuration
+                for order in (0, 1):
+                    feats = [{"f": "iter", "params": [["struct_name", isn]] if isn else []},
+                             {"f": "names", "params": [["struct_name", nsn]] if nsn else []}]
+                    if order:
+                        feats.reverse()
+                    descr.append({"feats": feats, "groups": [2], "pos": ["pre"]})
+        for cfg in descr[len(items):]:
+            lines = ascriptions(spec, cfg)
+            body = E.enum_item_text(spec, cfg) + HELPERS + "    pub fn sig() {\n" + "\n".join("        " + l for l in lines) + "\n    }"
+            items.append((len(items), body))
+    bad = C.failing_items(items)
+    for i, err in bad[:3]:
+        out.violate("a generated item does not have its documented signature (parameter matrix)", config=J.cfg_text(descr[i]), stderr=err)
+    out.count("param_matrix_configs", len(items))
+    out.nontrivial = True
+    out.fingerprint = J.fp("param_matrix")
+    out.sample = {"param_matrix_configs": len(items), "example": J.cfg_text(descr[7])}
+    return out
 
 
 def run_small_scope(case):
@@ -138,6 +179,8 @@ def run_small_scope(case):
 def run_case(case):
     if "small_scope" in case:
         return run_small_scope(case)
+    if "param_matrix" in case:
+        return run_param_matrix(case)
     out = J.Outcome()
     spec, cfg = dict(case["spec"]), case["cfg"]
     m = M.RefEnum(spec)
